@@ -234,6 +234,9 @@ def run(chk):
                 raise Violation(f"batch[{k}]", str(batches[k])[:150], f"the batch of network {k}'s own loader")
             if not same(new.fields['data_gen_obs'][k], n2):
                 raise Violation(f"loader[{k}]", "not advanced as its own obs_batch does", "advanced loader")
+        if set(new.fields['data_gen_obs'].keys()) != {'a', 'b', 'c'}:
+            raise Violation("loaders", f"the advanced generator holds the loaders of {sorted(new.fields['data_gen_obs'].keys())}",
+                            "an entry for every network ['a', 'b', 'c'] (None for the one without observations), as before the draw")
         if new.fields['data_gen_obs']['b'] is not None:
             raise Violation("loader[b]", repr(new.fields['data_gen_obs']['b']), "None")
         return "one aligned batch per network, empty entry for the network without observations"
